@@ -87,7 +87,7 @@ PLAIN_KNOWN = ["UInt8", "UInt16", "UInt32", "UInt64", "UInt128", "UInt256", "Int
 PLAIN_UNKNOWN = ["LineString", "MultiLineString", "Geometry", "BIGINT", "TINYINT", "IntervalDay", "MyType",
                  "Varchar", "TEXT", "_t1", "T2x"]
 ELEM_PLAIN = ["a", "b", "c", "id", "x1", "_f", "name", "value", "key", "ts", "n_1", "Index", "first", "k2", "V"]
-ELEM_QUOTED = ["a b", "x-y", "1st", "a.b", "sp ace d", "q?"]      # need backticks: not wf_ty, model-vs-code only
+ELEM_QUOTED = ["a b", "x-y", "1st", "a.b", "sp ace d", "q?", "é", "имя", "日本", "naïve", "x1é", "ſ", "a b", "٣"]      # need backticks: not wf_ty, model-vs-code only
 ELEM_TYPELIKE = ["date", "time", "string", "Int8", "uuid", "point", "Array", "interval", "bool", "json"]
 
 PARENTS = ["Array", "Nullable", "LowCardinality", "Map", "Tuple", "TupleNamed", "Variant"]
@@ -164,7 +164,7 @@ class Gen:
 
     def elem_name(self, ty):
         r = self.r
-        if r.chance(1, 40):
+        if r.chance(1, 25):
             return r.choice(ELEM_QUOTED)
         if self.dev and (not is_ident_tok(ty[1]) or not is_dtn(ty[1])) and r.chance(1, 2):
             return r.choice(ELEM_TYPELIKE)      # former F4 (keyword-token type) / residual R (unknown plain type)
@@ -180,6 +180,8 @@ class Gen:
     def enum_args(self, bits):
         r = self.r
         n = 1 + r.below(4)
+        if r.chance(1, 10):
+            n = r.choice([15, 16, 17, 20, 33, 64])     # long value lists (any size-dependent path of the printer)
         lo, hi = (-128, 127) if bits == 8 else (-32768, 32767)
         args = []
         for _ in range(n):
